@@ -259,7 +259,14 @@ def run(ctx):
         stats['family_' + fam['name']] = dict(programs=len(items) - n0)
     stats['excluded_known_construct'] = nexcl
     # pinned witnesses of known findings ride along (their rejection is expected and reported as KNOWN-FINDING)
-    known = vlib.known_cases('C01')
+    allknown = vlib.known_cases('C01')
+    known = [w for w in allknown if not gen.witness_fixed(w.get('id', ''))]
+    # witnesses of findings that have been fixed in /repo are ordinary regression programs now
+    for w in allknown:
+        if gen.witness_fixed(w.get('id', '')):
+            items.append(dict(src=w['src'], fam='regress', nenv=4, probe=1, ast=False))
+    stats['family_regress'] = dict(programs=len(allknown) - len(known))
+    batched['regress'] = False
     vlib.log('generated %d programs (+%d pinned witnesses), %d excluded (known constructs)  %.1fs' % (len(items), len(known), nexcl,
                                                                                                    time.time() - t00))
 
